@@ -64,6 +64,22 @@ def exc_text(e):
     return getattr(e, "_verif_text", None) or _exc_text(e)
 
 
+def _sweep_stale_tmp(prefix="c10-", older_than_s=3600.0):
+    """Temp directories of workers that were killed (pool.terminate on a budget cap) never reach their `finally`:
+    remove our own leftovers that are older than an hour. Never part of any hash or verdict."""
+    import os, shutil, time
+
+    root = os.environ.get("VERIF_TMP", "/var/tmp")
+    try:
+        for name in os.listdir(root):
+            if name.startswith(prefix):
+                q = os.path.join(root, name)
+                if time.time() - os.path.getmtime(q) > older_than_s:
+                    shutil.rmtree(q, ignore_errors=True)
+    except OSError:
+        pass
+
+
 PROPERTY = "C10"
 RULE = (
     "complete product D x grid menu x batch form x field kind; per configuration every axes() path of the tier "
@@ -1287,6 +1303,7 @@ def shards(tier: str, seed: int):
 
 def run_shard(shard) -> Acc:
     acc = Acc()
+    _sweep_stale_tmp()
     tier = shard["tier"]
     cfg = configs(tier, shard["seed"])[shard["i"]]
     ctx = Ctx(cfg)
